@@ -1022,7 +1022,14 @@ func (x *fx) slice(i *ssa.Slice) {
 		x.nilCheck(v, "slice of array")
 		base, off = ptrRef(v.S), ptrOff(v.S)
 		if _, ok := a.Elem().Underlying().(*types.Array); ok {
-			panic(unsupported("slicing array of arrays"))
+			// pointer offsets count scalars, slice offsets count elements: an array of
+			// arrays starts at an element boundary
+			sc := arrScale(a.Elem())
+			if x.mode == ModeBV {
+				off = fmt.Sprintf("(bvsdiv %s %s)", off, x.idxConst(sc))
+			} else {
+				off = fmt.Sprintf("(div %s %d)", off, sc)
+			}
 		}
 		ln, cp = x.idxConst(a.Len()), x.idxConst(a.Len())
 		elem = a.Elem()
